@@ -55,7 +55,11 @@ impl RandomPolicy {
                 Some(val) => {
                     let len = val.1.len();
                     debug!("Evicted: {} bytes from storage", len);
-                    usage = self.decr_mem_usage(len as u64);
+                    // decr_mem_usage returns the value before the subtraction,
+                    // which also contains the record that is being written
+                    usage = self
+                        .decr_mem_usage(len as u64)
+                        .saturating_sub(len as u64 + value);
                 }
                 None => {}
             });
